@@ -48,7 +48,7 @@ def Stmt.emits : Stmt → Bool
 
 /-- every emitting statement's bytes stand at its reference address in the image of a successful run -/
 theorem stmt_in_image (p q r : List Stmt) (s : Stmt) (img : Img) (h : run p = .ok img)
-    (hwf : ∀ s ∈ p, s.wf = true) (hal : NoAlignAtTop p) (hp : p = q ++ s :: r) (hs : s.emits = true) :
+    (hwf : ∀ s ∈ p, s.wf = true) (hp : p = q ++ s :: r) (hs : s.emits = true) :
     ∃ c, cursorAfter none q = some c ∧ ∀ i, i < (bytes c s).length → img.get (c + i) = (bytes c s)[i]? := by
   subst hp
   obtain ⟨st, st1, st2, hst, hrt, hcs, rfl⟩ := run_ok _ img h
@@ -58,11 +58,8 @@ theorem stmt_in_image (p q r : List Stmt) (s : Stmt) (img : Img) (h : run p = .o
   | error e => rw [hstep] at hb; cases hb
   | ok sb =>
     rw [hstep] at hb; simp only at hb
-    unfold NoAlignAtTop at hal
-    rw [trace_append] at hal
     obtain ⟨im1, e1, r1, _⟩ := steps_rel q {} sa none [] rel_init
-      (fun x hx => hwf x (List.mem_append_left _ hx))
-      (fun x n hx => hal x n (List.mem_append_left _ hx)) ha
+      (fun x hx => hwf x (List.mem_append_left _ hx)) ha
     have hsome : sa.active.isSome = true := by
       have := (step_shape sa sb s ⟨r1.core, r1.tasks⟩ hstep).1
       cases s <;> first | exact this | cases hs
@@ -74,14 +71,11 @@ theorem stmt_in_image (p q r : List Stmt) (s : Stmt) (img : Img) (h : run p = .o
       | none => rw [hact] at hsome; cases hsome
       | some a => rw [hact] at this; cases this
     | some c =>
-      rw [hc] at r1 hal
+      rw [hc] at r1
       obtain ⟨im2, e2, r2, _⟩ := step_rel sa sb s (some c) im1 r1
-        (hwf s (List.mem_append_right _ List.mem_cons_self))
-        (fun x n hx hsn => hal x n (List.mem_append_right _ (by
-          cases hx; rw [hsn]; exact List.mem_cons_self))) hstep
+        (hwf s (List.mem_append_right _ List.mem_cons_self)) hstep
       obtain ⟨im3, e3, r3, m3⟩ := steps_rel r sb st (next (some c) s) im2 r2
-        (fun x hx => hwf x (List.mem_append_right _ (List.mem_cons_of_mem _ hx)))
-        (fun x n hx => hal x n (List.mem_append_right _ (List.mem_cons_of_mem _ hx))) hb
+        (fun x hx => hwf x (List.mem_append_right _ (List.mem_cons_of_mem _ hx))) hb
       have him2 : im2 = im1.put c (bytes c s) := by
         have := e2 []
         cases s with
@@ -120,23 +114,6 @@ theorem pass2_const (q r : List Stmt) (c : Option Nat) (im : Img) (n : Nat) (d :
       | some x => exact ih _ _
 
 theorem next_const (c : Option Nat) (n : Nat) (d : List Nat) (v : Int) : next c (.const n d v) = c := rfl
-
-/-- moving a `.const` does not change which `.align` statements stand at which reference cursor -/
-theorem noAlignAtTop_const (q r : List Stmt) (n : Nat) (d : List Nat) (v : Int) :
-    NoAlignAtTop (q ++ .const n d v :: r) ↔ NoAlignAtTop (q ++ r) := by
-  unfold NoAlignAtTop
-  simp only [trace_append, trace, next_const, List.mem_append, List.mem_cons]
-  constructor
-  · intro h c m hm
-    rcases hm with hm | hm
-    · exact h c m (Or.inl hm)
-    · exact h c m (Or.inr (Or.inr hm))
-  · intro h c m hm
-    rcases hm with hm | hm | hm
-    · exact h c m (Or.inl hm)
-    · have := congrArg Prod.snd hm; cases this
-    · exact h c m (Or.inr hm)
-
 
 /-! ### `pass1` -/
 
@@ -230,7 +207,6 @@ theorem cursorAfter_silent (mid : List Stmt) (c : Option Nat) (h : ∀ s ∈ mid
 
 theorem steps_env (p : List Stmt) (st st' : State) (c : Option Nat) (im : Img)
     (hr : Rel st st.tasks c im) (hwf : ∀ s ∈ p, s.wf = true)
-    (hal : ∀ x n, (some x, Stmt.align n) ∈ trace c p → x < top ∨ size x (.align n) = 0)
     (hl : ∀ x n, (some x, Stmt.label n) ∈ trace c p → x < top)
     (h : steps st p = .ok st') : pass1 c st.env p = some st'.env := by
   induction p generalizing st c im with
@@ -241,10 +217,8 @@ theorem steps_env (p : List Stmt) (st st' : State) (c : Option Nat) (im : Img)
     | error err => rw [hs] at h; cases h
     | ok st1 =>
       rw [hs] at h; simp only at h
-      obtain ⟨im1, _, r1, _⟩ := step_rel st st1 s c im hr (hwf s List.mem_cons_self)
-        (fun x n hc hsn => hal x n (by rw [hc, hsn]; exact List.mem_cons_self)) hs
+      obtain ⟨im1, _, r1, _⟩ := step_rel st st1 s c im hr (hwf s List.mem_cons_self) hs
       have ih' := ih st1 (next c s) im1 r1 (fun x hx => hwf x (List.mem_cons_of_mem _ hx))
-        (fun x n hx => hal x n (List.mem_cons_of_mem _ hx))
         (fun x n hx => hl x n (List.mem_cons_of_mem _ hx)) h
       obtain ⟨sh1, _, sh3⟩ := step_shape st st1 s ⟨hr.core, hr.tasks⟩ hs
       have hcs : st.active.isSome = true → ∃ x, c = some x := by
@@ -285,75 +259,21 @@ theorem steps_env (p : List Stmt) (st st' : State) (c : Option Nat) (im : Img)
         rw [sh3] at ih'; exact ih'
 
 
-/-! ### a reference image inside the address space has no padding `.align` at 2^32 -/
+/-! ### the image of a run lies inside the address space -/
 
-theorem pass2_mono (p : List Stmt) (c : Option Nat) (im img' : Img) (a : Nat)
-    (h : pass2 c im p = some img') (ha : im.has a = true) : img'.has a = true := by
-  induction p generalizing c im with
-  | nil => simp only [pass2] at h; cases h; exact ha
-  | cons s r ih =>
-    cases s with
-    | addr x => exact ih _ _ h ha
-    | label m => exact ih _ _ h ha
-    | const m d v => exact ih _ _ h ha
-    | raw bs => cases c with
-      | none => cases h
-      | some x => exact ih _ _ h (has_put_mono _ _ _ _ ha)
-    | emit len deps final => cases c with
-      | none => cases h
-      | some x => exact ih _ _ h (has_put_mono _ _ _ _ ha)
-    | align m => cases c with
-      | none => cases h
-      | some x => exact ih _ _ h (has_put_mono _ _ _ _ ha)
-
-theorem pass2_cons_next (s : Stmt) (r : List Stmt) (c : Option Nat) (im img' : Img) (hwf : s.wf = true)
-    (h : pass2 c im (s :: r) = some img') : ∃ im1, pass2 (next c s) im1 r = some img' := by
-  cases s with
-  | addr x => exact ⟨_, h⟩
-  | label m => exact ⟨_, h⟩
-  | const m d v => exact ⟨_, h⟩
-  | raw bs => cases c with
-    | none => cases h
-    | some x => exact ⟨_, h⟩
-  | emit len deps final =>
-    have hw : final.length = len := by simpa [Stmt.wf] using hwf
-    cases c with
-    | none => cases h
-    | some x => subst hw; exact ⟨_, h⟩
-  | align m => cases c with
-    | none => cases h
-    | some x =>
-      refine ⟨im.put x (placeholder (size x (.align m))), ?_⟩
-      have : next (some x) (.align m) = some (x + (placeholder (size x (.align m))).length) := by
-        simp only [next, Option.map_some, length_placeholder]
-      rw [this]; exact h
-
-theorem fits_noAlign (p : List Stmt) (c : Option Nat) (im img' : Img) (hwf : ∀ s ∈ p, s.wf = true)
-    (h : pass2 c im p = some img') (hfit : ∀ a, top ≤ a → img'.has a = false) :
-    ∀ x n, (some x, Stmt.align n) ∈ trace c p → x < top ∨ size x (.align n) = 0 := by
-  induction p generalizing c im with
-  | nil => intro x n hm; cases hm
-  | cons s r ih =>
-    intro x n hm
-    simp only [trace, List.mem_cons] at hm
-    rcases hm with hm | hm
-    · have h1 : c = some x := (congrArg Prod.fst hm).symm
-      have h2 : s = .align n := (congrArg Prod.snd hm).symm
-      subst h1 h2
-      by_cases hx : x < top
-      · exact Or.inl hx
-      · right
-        by_cases hz : size x (.align n) = 0
-        · exact hz
-        · exfalso
-          have hput : (im.put x (placeholder (size x (.align n)))).has x = true := by
-            rw [has_put, length_placeholder]
-            have : x ≤ x ∧ x < x + size x (.align n) := by omega
-            simp [this]
-          have := pass2_mono r _ _ img' x h hput
-          rw [hfit x (by omega)] at this
-          cases this
-    · obtain ⟨im1, h1⟩ := pass2_cons_next s r c im img' (hwf s List.mem_cons_self) h
-      exact ih _ _ (fun y hy => hwf y (List.mem_cons_of_mem _ hy)) h1 x n hm
+theorem run_lt_top (p : List Stmt) (img : Img) (h : run p = .ok img) (hwf : ∀ s ∈ p, s.wf = true)
+    (a : Nat) (ha : top ≤ a) : img.get a = none := by
+  obtain ⟨st, st1, st2, hs, hr, hc, rfl⟩ := run_ok p img h
+  have hi := steps_inv p {} st inv_init hwf hs
+  have hc0 : Core { st with tasks := [] } := hi.1
+  have ht : ∀ t ∈ st.tasks, TaskOk { st with tasks := [] } t := hi.2
+  have hc1 := runTasks_core st.tasks _ st1 hc0 ht hr
+  obtain ⟨st2', h2, hc2, _⟩ := closeSeg_spec st1 hc1
+  rw [hc] at h2; cases h2
+  cases hga : st2.closed.get a with
+  | none => rfl
+  | some v =>
+    have := hc2.1 a (by unfold Img.has; rw [hga]; rfl)
+    omega
 
 end Trion.Layout
